@@ -185,9 +185,10 @@ func sourceCalls() (map[string]string, bool) {
 		top = append(top, s)
 	}
 	out["top"] = strings.Join(callSet(imports, top, map[ast.Node]bool{swE.Body: true, swP.Body: true}), ",")
-	// the helpers Parse calls on its steady-state path, wherever they live in the package: whole-body call sets, and
-	// for findOrCreateHostWithLock also its read-locked fast path (the statements up to and including the first if)
+	// the helpers Parse calls on its steady-state path, wherever they live in the package
 	helpers := map[string]*ast.FuncDecl{}
+	pkgFuncs := map[string]*ast.FuncDecl{}   // every function of package packet, by name
+	pkgMethods := map[string]*ast.FuncDecl{} // every method of package packet, by method name
 	names, _ := filepath.Glob(filepath.Join(repo, "*.go"))
 	for _, n := range names {
 		if strings.HasSuffix(n, "_test.go") {
@@ -209,6 +210,14 @@ func sourceCalls() (map[string]string, bool) {
 		}
 		for _, d := range f.Decls {
 			if fd, ok := d.(*ast.FuncDecl); ok && fd.Body != nil {
+				if strings.HasPrefix(filepath.Base(n), "verif_") {
+					continue
+				}
+				if fd.Recv == nil {
+					pkgFuncs[fd.Name.Name] = fd
+				} else {
+					pkgMethods[fd.Name.Name] = fd
+				}
 				switch fd.Name.Name {
 				case "echoNotify", "hostOnline", "onlineTransition", "findOrCreateHostWithLock":
 					helpers[fd.Name.Name] = fd
@@ -216,29 +225,53 @@ func sourceCalls() (map[string]string, bool) {
 			}
 		}
 	}
-	for _, h := range []string{"echoNotify", "hostOnline", "onlineTransition", "findOrCreateHostWithLock"} {
+	// Helper call sets are LEAF sets: a callee that is itself a function of package packet is expanded (its own callees
+	// are taken instead, transitively), so extracting or inlining a package-local helper does not change the set; what
+	// remains are builtins and calls into other packages / types of other packages - the things that can allocate.
+	var leaves func(nodes []ast.Node, seen map[string]bool, acc map[string]bool)
+	leaves = func(nodes []ast.Node, seen map[string]bool, acc map[string]bool) {
+		for _, c := range callSet(imports, nodes, nil) {
+			name := strings.TrimPrefix(c, ".")
+			fd, isLocal := pkgFuncs[name] // a bare identifier names a function, a selector a method
+			if strings.HasPrefix(c, ".") {
+				fd, isLocal = pkgMethods[name]
+			} else if strings.Contains(c, ".") {
+				isLocal = false
+			}
+			if isLocal {
+				if !seen[name] {
+					seen[name] = true
+					leaves([]ast.Node{fd.Body}, seen, acc)
+				}
+				continue
+			}
+			acc[c] = true
+		}
+	}
+	leafSet := func(nodes []ast.Node, self string) string {
+		acc := map[string]bool{}
+		leaves(nodes, map[string]bool{self: true}, acc)
+		l := make([]string, 0, len(acc))
+		for k := range acc {
+			l = append(l, k)
+		}
+		sort.Strings(l)
+		return strings.Join(l, ",")
+	}
+	for _, h := range []string{"echoNotify", "hostOnline", "findOrCreateHostWithLock"} {
 		fd, ok := helpers[h]
 		if !ok {
 			return nil, false
 		}
-		out["fn:"+h] = strings.Join(callSet(imports, []ast.Node{fd.Body}, nil), ",")
-		if h == "findOrCreateHostWithLock" {
-			var fast []ast.Node
-			for _, s := range fd.Body.List {
-				fast = append(fast, s)
-				if _, isIf := s.(*ast.IfStmt); isIf {
-					break
-				}
-			}
-			out["fn:"+h+".fast"] = strings.Join(callSet(imports, fast, nil), ",")
-		}
+		out["fn:"+h] = leafSet([]ast.Node{fd.Body}, h)
 	}
 	return out, true
 }
 
 // sourceLogs: the log statements on Parse's path - every Logger.Msg("..") in Parse, hostOnline, onlineTransition,
 // findOrCreateHostWithLock and echoNotify - with the level that guards them lexically ("info" / "debug" when an
-// enclosing if tests IsInfo() / IsDebug(), "always" otherwise), as sorted rows "func:guard:message".
+// enclosing if tests IsInfo() / IsDebug(), "always" otherwise), as a sorted MULTISET of rows "func:guard" per function
+// (no message text: rewording a log line is not a change of behaviour the property speaks about).
 func sourceLogs() (string, bool) {
 	repo := os.Getenv("VERIF_REPO")
 	if repo == "" {
@@ -291,9 +324,9 @@ func sourceLogs() (string, bool) {
 						return false
 					case *ast.CallExpr:
 						if se, ok := y.Fun.(*ast.SelectorExpr); ok && se.Sel.Name == "Msg" && len(y.Args) == 1 {
-							if lit, ok := y.Args[0].(*ast.BasicLit); ok {
-								msg, _ := strconv.Unquote(lit.Value)
-								rows = append(rows, fd.Name.Name+":"+guard+":"+strings.ReplaceAll(msg, " ", "_"))
+							if lit := y.Args[0]; lit != nil {
+								_ = lit // the message text is not part of the property; the guard is
+								rows = append(rows, fd.Name.Name+":"+guard)
 							}
 						}
 					}
